@@ -284,14 +284,16 @@ struct Sink
          rewind(tf);
          char buf[4096];
          size_t n;
-         while((n = fread(buf, 1, sizeof buf, tf)) > 0 && txt.size() < 60000) txt.append(buf, n);
+         while((n = fread(buf, 1, sizeof buf, tf)) > 0 && txt.size() < 4000000) txt.append(buf, n);
          // one block per leaked allocation stack; LSan repeats old leaks on every call, so remember what was reported
          size_t bp = 0;
          while((bp = txt.find("irect leak of", bp)) != std::string::npos)
          {
             size_t be = txt.find("irect leak of", bp + 10);
             std::string blk = txt.substr(bp, be == std::string::npos ? std::string::npos : be - bp);
+            bool direct = bp > 0 && txt[bp - 1] == 'D';      // "Direct leak of": indirect leaks are children of a direct one
             bp += 10;
+            if(!direct) continue;
             std::string frames, firstUser;
             std::vector<std::string> sxFrames;
             size_t pos = 0;
